@@ -21,10 +21,11 @@ def guard_constants(P, fn):
             if t['k'] == 'switch' and t['dty'] != 'bool':
                 # `matches!(x, Term::Nil)` / `if let Term::Nil = x`: the same question as `x == Term::Nil`
                 sd = B.switch_on_discr(bb)
-                if sd and sd[1] in (OWNED, BORROWED) and len(sd[2]) == 1:
-                    names_ = {int(v['discr']): v['n'] for v in P.F.adts[sd[1]]['variants']}
+                ty_ = sd[1].replace('&', '').split('<')[0] if sd else None
+                if sd and ty_ in (OWNED, BORROWED) and len(sd[2]) == 1:
+                    names_ = {int(v['discr']): v['n'] for v in P.F.adts[ty_]['variants']}
                     vn = names_.get(sd[2][0][0])
-                    if vn and not P.F.adts[sd[1]]['variants'][[int(v['discr']) for v in P.F.adts[sd[1]]['variants']].index(sd[2][0][0])]['fields']:
+                    if vn and not P.F.adts[ty_]['variants'][[int(v['discr']) for v in P.F.adts[ty_]['variants']].index(sd[2][0][0])]['fields']:
                         out.append(('call', 'eq', vn, False))
                 continue
             if t['k'] != 'switch' or t['dty'] != 'bool':
